@@ -1,5 +1,474 @@
 package main
 
-import "fmt"
+import (
+	"encoding/json"
+	"flag"
+	"fmt"
+	"os"
+	"sort"
+	"sync"
+	"sync/atomic"
+	"time"
+	"unsafe"
 
-func cmdRace(args []string) { fmt.Println("not yet implemented") }
+	"github.com/vkngwrapper/arsenal/vam"
+	"github.com/vkngwrapper/core/v3/core1_0"
+
+	"verif/harness/internal/simvk"
+)
+
+type raceSummary struct {
+	Seed          uint64         `json:"seed"`
+	Workers       int            `json:"workers"`
+	Seconds       float64        `json:"seconds"`
+	Ops           map[string]int `json:"ops"`
+	Errors        int            `json:"ops_returning_error"`
+	Panics        map[string]int `json:"panics"`
+	Violations    map[string]int `json:"valid_usage_violations"`
+	Corruptions   int            `json:"own_bytes_corrupted"`
+	Hang          bool           `json:"hang"`
+	FinalProblems []string       `json:"final_state_problems"`
+	DriverCalls   map[string]int `json:"driver_calls"`
+	Note          string         `json:"note"`
+}
+
+// cmdRace is the C12 stress: goroutines allocate/free distinct allocations, map, create/destroy pools and read
+// statistics concurrently on one internally synchronized allocator. Build with -race to let the Go race detector
+// report data races (they go to stderr; the process exits with status 66 when any was seen).
+func cmdRace(args []string) {
+	fs := flag.NewFlagSet("race", flag.ExitOnError)
+	seed := fs.Uint64("seed", 1, "PRNG seed (per-worker op choices)")
+	dur := fs.Duration("dur", 3*time.Second, "duration")
+	workers := fs.Int("workers", 8, "goroutines")
+	fs.Parse(args)
+
+	cfg := simvk.Config{
+		API: 10,
+		Heaps: []simvk.HeapCfg{
+			{Size: 64 << 20, DeviceLocal: true},
+			{Size: 32 << 20},
+		},
+		Types: []simvk.TypeCfg{
+			{Heap: 0, Flags: simvk.PropDeviceLocal},
+			{Heap: 1, Flags: simvk.PropHostVisible | simvk.PropHostCoherent},
+			{Heap: 1, Flags: simvk.PropHostVisible | simvk.PropHostCached},
+			{Heap: 0, Flags: simvk.PropDeviceLocal | simvk.PropHostVisible | simvk.PropHostCoherent},
+		},
+		Granularity: 64, AtomSize: 64, MaxAllocCount: 1 << 20,
+		Log: false, TableSize: 1 << 22,
+	}
+	dev := simvk.NewDevice(cfg)
+	drv := simvk.NewDriver(dev)
+	// small blocks so that blocks are created and destroyed all the time
+	alloc, err := vam.New(discardLogger, drv.Driver, drv.PhysicalDevice, vam.CreateOptions{})
+	if err != nil {
+		fmt.Fprintln(os.Stderr, "vam.New:", err)
+		os.Exit(1)
+	}
+	sharedPools := make([]*vam.Pool, 0, 2)
+	for _, t := range []int{1, 2} {
+		p, _, err := alloc.CreatePool(vam.PoolCreateInfo{MemoryTypeIndex: t, BlockSize: 64 * kib, MaxBlockCount: 0})
+		if err != nil {
+			fmt.Fprintln(os.Stderr, "CreatePool:", err)
+			os.Exit(1)
+		}
+		sharedPools = append(sharedPools, p)
+	}
+
+	sum := &raceSummary{Seed: *seed, Workers: *workers, Ops: map[string]int{}, Panics: map[string]int{}, Violations: map[string]int{}, DriverCalls: map[string]int{}}
+	var mu sync.Mutex
+	var errCount, corrupt atomic.Int64
+	stop := make(chan struct{})
+	var wg sync.WaitGroup
+	master := newRng(*seed)
+
+	for wi := 0; wi < *workers; wi++ {
+		r := master.fork()
+		wg.Add(1)
+		go func(id int, r *rng) {
+			defer wg.Done()
+			const n = 48
+			slots := make([]vam.Allocation, n)
+			live := make([]bool, n)
+			mapped := make([]int, n)
+			hostVis := func(i int) bool {
+				return cfg.Types[slots[i].MemoryTypeIndex()].Flags&simvk.PropHostVisible != 0
+			}
+			var myPools []*vam.Pool
+			opCount := map[string]int{}
+			panics := map[string]int{}
+			do := func(name string, f func() error) {
+				defer func() {
+					if p := recover(); p != nil {
+						panics[panicSig(p)]++
+					}
+				}()
+				opCount[name]++
+				if err := f(); err != nil {
+					errCount.Add(1)
+				}
+			}
+			pick := func(want bool) int {
+				start := r.intn(n)
+				for k := 0; k < n; k++ {
+					i := (start + k) % n
+					if live[i] == want {
+						return i
+					}
+				}
+				return -1
+			}
+			running := true
+			for running {
+				select {
+				case <-stop:
+					running = false
+					continue
+				default:
+				}
+				switch x := r.intn(100); {
+				case x < 30: // allocate
+					i := pick(false)
+					if i < 0 {
+						continue
+					}
+					ci := vam.AllocationCreateInfo{UserData: id*1000 + i}
+					switch r.intn(5) {
+					case 0:
+						ci.Pool = sharedPools[r.intn(len(sharedPools))]
+					case 1:
+						if len(myPools) > 0 {
+							ci.Pool = myPools[r.intn(len(myPools))]
+						}
+					case 2:
+						ci.Flags = vam.AllocationCreateMapped
+						ci.RequiredFlags = core1_0.MemoryPropertyHostVisible
+					case 3:
+						ci.RequiredFlags = core1_0.MemoryPropertyHostVisible
+					}
+					size := r.rangeIncl(16, 48*kib)
+					if r.chance(3) {
+						size = r.rangeIncl(3<<20, 5<<20) // dedicated
+					}
+					if ci.Pool != nil {
+						size = r.rangeIncl(16, 24*kib)
+					}
+					mr := core1_0.MemoryRequirements{Size: size, Alignment: 1 << uint(r.intn(9)), MemoryTypeBits: 0xf}
+					do("alloc", func() error {
+						_, err := alloc.AllocateMemory(&mr, ci, &slots[i])
+						if err == nil {
+							live[i] = true
+						}
+						return err
+					})
+				case x < 55: // free
+					i := pick(true)
+					if i < 0 || mapped[i] > 0 {
+						continue
+					}
+					do("free", func() error {
+						err := slots[i].Free()
+						if err == nil {
+							live[i] = false
+						}
+						return err
+					})
+				case x < 75: // map, touch own bytes, unmap
+					i := pick(true)
+					if i < 0 || !hostVis(i) {
+						continue
+					}
+					do("map-write-unmap", func() error {
+						p, _, err := slots[i].Map()
+						if err != nil || p == nil {
+							return err
+						}
+						sz := slots[i].Size()
+						if sz > 4096 {
+							sz = 4096
+						}
+						b := unsafe.Slice((*byte)(p), sz)
+						for k := range b {
+							b[k] = byte(id*17 + i + k)
+						}
+						for k := range b {
+							if b[k] != byte(id*17+i+k) {
+								corrupt.Add(1)
+								break
+							}
+						}
+						return slots[i].Unmap()
+					})
+				case x < 80: // flush
+					i := pick(true)
+					if i < 0 || !hostVis(i) {
+						continue
+					}
+					do("map-flush-unmap", func() error {
+						if _, _, err := slots[i].Map(); err != nil {
+							return err
+						}
+						_, err := slots[i].Flush(0, -1)
+						if e2 := slots[i].Unmap(); err == nil {
+							err = e2
+						}
+						return err
+					})
+				case x < 85: // pools
+					if len(myPools) < 2 && r.chance(60) {
+						do("create-pool", func() error {
+							p, _, err := alloc.CreatePool(vam.PoolCreateInfo{MemoryTypeIndex: r.intn(len(cfg.Types)), BlockSize: 32 * kib, MinBlockCount: r.intn(2)})
+							if err == nil {
+								myPools = append(myPools, p)
+							}
+							return err
+						})
+					} else if len(myPools) > 0 {
+						// destroy a pool of ours that holds none of our allocations
+						p := myPools[len(myPools)-1]
+						busy := false
+						for k := range slots {
+							if live[k] && vam.VerifAllocationInfo(&slots[k]).Pool == p {
+								busy = true
+							}
+						}
+						if !busy {
+							do("destroy-pool", func() error {
+								err := p.Destroy()
+								if err == nil {
+									myPools = myPools[:len(myPools)-1]
+								}
+								return err
+							})
+						}
+					}
+				case x < 92:
+					do("calculate-statistics", func() error {
+						var st vam.AllocatorStatistics
+						return alloc.CalculateStatistics(&st)
+					})
+				case x < 96:
+					do("build-stats-string", func() error {
+						_ = alloc.BuildStatsString(r.chance(50))
+						return nil
+					})
+				default: // slice allocation into consecutive free slots
+					start := r.intn(n - 4)
+					ok := true
+					for k := start; k < start+3; k++ {
+						ok = ok && !live[k]
+					}
+					if !ok {
+						continue
+					}
+					mr := core1_0.MemoryRequirements{Size: r.rangeIncl(64, 8*kib), Alignment: 16, MemoryTypeBits: 0xf}
+					do("alloc-slice", func() error {
+						_, err := alloc.AllocateMemorySlice(&mr, vam.AllocationCreateInfo{}, slots[start:start+3])
+						if err == nil {
+							for k := start; k < start+3; k++ {
+								live[k] = true
+							}
+						}
+						return err
+					})
+				}
+			}
+			// wind down
+			for i := range slots {
+				if live[i] {
+					do("free", func() error {
+						err := slots[i].Free()
+						if err == nil {
+							live[i] = false
+						}
+						return err
+					})
+				}
+			}
+			for _, p := range myPools {
+				do("destroy-pool", func() error { return p.Destroy() })
+			}
+			mu.Lock()
+			for k, v := range opCount {
+				sum.Ops[k] += v
+			}
+			for k, v := range panics {
+				sum.Panics[k] += v
+			}
+			mu.Unlock()
+		}(wi, r)
+	}
+
+	start := time.Now()
+	time.Sleep(*dur)
+	close(stop)
+	doneCh := make(chan struct{})
+	go func() { wg.Wait(); close(doneCh) }()
+	select {
+	case <-doneCh:
+	case <-time.After(60 * time.Second):
+		sum.Hang = true
+	}
+	sum.Seconds = time.Since(start).Seconds()
+	sum.Errors = int(errCount.Load())
+	sum.Corruptions = int(corrupt.Load())
+
+	if !sum.Hang {
+		problem := func(f string, a ...any) { sum.FinalProblems = append(sum.FinalProblems, fmt.Sprintf(f, a...)) }
+		func() {
+			defer func() {
+				if p := recover(); p != nil {
+					problem("final checks panicked: %s", panicSig(p))
+				}
+			}()
+			// everything was freed: totals must equal device truth
+			var st vam.AllocatorStatistics
+			if err := alloc.CalculateStatistics(&st); err != nil {
+				problem("CalculateStatistics: %v", err)
+			}
+			if st.Total.AllocationCount != 0 || st.Total.AllocationBytes != 0 {
+				problem("statistics report %d allocations / %d bytes after everything was freed", st.Total.AllocationCount, st.Total.AllocationBytes)
+			}
+			mems := dev.LiveMems()
+			if st.Total.BlockCount != len(mems) {
+				problem("statistics report %d blocks, device holds %d memory objects", st.Total.BlockCount, len(mems))
+			}
+			for h := range cfg.Heaps {
+				hs, usage, _ := vam.VerifHeapBudget(alloc, h)
+				if hs.AllocationCount != 0 || hs.AllocationBytes != 0 {
+					problem("heap %d budget reports %d allocations / %d bytes after everything was freed", h, hs.AllocationCount, hs.AllocationBytes)
+				}
+				if hs.BlockBytes != dev.HeapBytes(h) || usage != dev.HeapBytes(h) {
+					problem("heap %d budget reports %d block bytes (usage %d), device holds %d", h, hs.BlockBytes, usage, dev.HeapBytes(h))
+				}
+			}
+			if n := vam.VerifDeviceMemoryCount(alloc); n != len(mems) {
+				problem("allocator counts %d device memory objects, device holds %d", n, len(mems))
+			}
+			for _, p := range sharedPools {
+				if err := p.Destroy(); err != nil {
+					problem("shared pool Destroy: %v", err)
+				}
+			}
+			if err := alloc.Destroy(); err != nil {
+				problem("Allocator.Destroy: %v", err)
+			}
+			if n := dev.LiveMemCount(); n != 0 {
+				problem("%d device memory objects remain after Destroy", n)
+			}
+			if n := dev.MappedCount(); n != 0 {
+				problem("%d mappings remain after Destroy", n)
+			}
+		}()
+	}
+	for _, v := range dev.TakeViolations() {
+		sum.Violations[v.Code]++
+	}
+	if n := dev.ViolationCount(); n > 0 {
+		sum.Violations["total"] = int(n)
+	}
+	for k := 0; k < int(simvk.NumCallKinds); k++ {
+		sum.DriverCalls[simvk.CallKind(k).String()] = int(dev.CallCounts[k].Load())
+	}
+	sum.Note = "data races are reported by the Go race detector on stderr (build with -race); exit status 66 means at least one race"
+	keys := make([]string, 0)
+	for k := range sum.Panics {
+		keys = append(keys, k)
+	}
+	sort.Strings(keys)
+	js, _ := json.MarshalIndent(sum, "", "  ")
+	fmt.Println(string(js))
+	if sum.Hang {
+		os.Exit(4)
+	}
+}
+
+// cmdRaceSum summarizes Go race detector output (stderr of `vamh race` built with -race): one line per distinct
+// pair of source locations, most frequent first.
+func cmdRaceSum(args []string) {
+	if len(args) != 1 {
+		usage()
+	}
+	data, err := os.ReadFile(args[0])
+	if err != nil {
+		fmt.Fprintln(os.Stderr, err)
+		os.Exit(1)
+	}
+	counts := map[string]int{}
+	lines := splitLines(string(data))
+	for i := 0; i < len(lines); i++ {
+		if !hasPrefixTrim(lines[i], "WARNING: DATA RACE") {
+			continue
+		}
+		var frames []string
+		for j := i + 1; j < len(lines) && len(frames) < 2 && !hasPrefixTrim(lines[j], "=================="); j++ {
+			l := trim(lines[j])
+			for _, k := range []string{"Read at", "Write at", "Previous read at", "Previous write at", "Atomic"} {
+				if len(l) >= len(k) && l[:len(k)] == k && j+2 < len(lines) {
+					fn := trim(lines[j+1])
+					loc := trim(lines[j+2])
+					if sp := indexByte(loc, ' '); sp > 0 {
+						loc = loc[:sp]
+					}
+					if p := indexByte(fn, '('); p > 0 && fn[len(fn)-1] == ')' {
+						fn = fn[:len(fn)-2]
+					}
+					frames = append(frames, k[:len(k)-3]+" "+loc+" ("+fn+")")
+					break
+				}
+			}
+		}
+		if len(frames) == 2 {
+			counts[frames[0]+"  <->  "+frames[1]]++
+		}
+	}
+	type kv struct {
+		k string
+		v int
+	}
+	var all []kv
+	for k, v := range counts {
+		all = append(all, kv{k, v})
+	}
+	sort.Slice(all, func(i, j int) bool { return all[i].v > all[j].v || all[i].v == all[j].v && all[i].k < all[j].k })
+	fmt.Printf("%d distinct racing location pairs\n", len(all))
+	for _, e := range all {
+		fmt.Printf("%6d  %s\n", e.v, e.k)
+	}
+}
+
+func splitLines(s string) []string {
+	var out []string
+	start := 0
+	for i := 0; i < len(s); i++ {
+		if s[i] == '\n' {
+			out = append(out, s[start:i])
+			start = i + 1
+		}
+	}
+	return append(out, s[start:])
+}
+
+func trim(s string) string {
+	for len(s) > 0 && (s[0] == ' ' || s[0] == '\t') {
+		s = s[1:]
+	}
+	for len(s) > 0 && (s[len(s)-1] == ' ' || s[len(s)-1] == '\t' || s[len(s)-1] == '\r') {
+		s = s[:len(s)-1]
+	}
+	return s
+}
+
+func hasPrefixTrim(s, p string) bool {
+	s = trim(s)
+	return len(s) >= len(p) && s[:len(p)] == p
+}
+
+func indexByte(s string, b byte) int {
+	for i := 0; i < len(s); i++ {
+		if s[i] == b {
+			return i
+		}
+	}
+	return -1
+}
